@@ -205,10 +205,83 @@ Proof.
   destruct l as [|x l]; simpl; [now rewrite firstn_nil|]. now rewrite IH.
 Qed.
 
-(* the URL a registry's next link stands for: same path, cursor x, the registry's extra
-   parameters, then the other parameters of the request *)
-Definition link_target (d : decision) (rq : url) (x : str) : url :=
-  mkUrl (u_path rq) ((k_last, VS x) :: d_extra d ++ qdel k_last (u_query rq)).
+Definition cursor_ok (cu : cursor) : Prop :=
+  match cu with CLast => True | CToken k _ => k <> k_n /\ k <> k_last /\ k <> k_at end.
+
+Lemma strip_app p x : strip p (p ++ x) = x.
+Proof. unfold strip. rewrite firstn_app_exact, str_eqb_refl. apply skipn_app_exact. Qed.
+
+Lemma ckey_neq_n cu : cursor_ok cu -> ckey cu <> k_n.
+Proof. destruct cu; simpl; [intros _; intro H; symmetry in H; now apply k_n_neq_last in H|tauto]. Qed.
+Lemma ckey_neq_at cu : cursor_ok cu -> ckey cu <> k_at.
+Proof. destruct cu; simpl; [intros _; exact k_last_neq_at|tauto]. Qed.
+
+(* reading back the cursor the registry wrote *)
+Lemma cursor_read_link cu q x : cursor_read cu ((ckey cu, VS (cenc cu x)) :: q) = x.
+Proof.
+  destruct cu as [|k s]; unfold cursor_read, qget_s; cbn [ckey cenc qget]; rewrite str_eqb_refl; [reflexivity|].
+  apply strip_app.
+Qed.
+
+(* a request without the registry's own cursor: the client's `last` decides *)
+Lemma cursor_read_start cu q :
+  cu = CLast \/ qget (ckey cu) q = None -> cursor_read cu q = qget_s k_last q.
+Proof.
+  destruct cu as [|k s]; [reflexivity|]. intros [H|H]; [discriminate|].
+  unfold cursor_read. cbn [ckey] in H. now rewrite H.
+Qed.
+
+(* the client's next request still carries the cursor the registry wrote *)
+Lemma cursor_read_request cu c p x q :
+  cursor_ok cu ->
+  cursor_read cu (u_query (mk_request c (mkUrl p ((ckey cu, VS (cenc cu x)) :: q)) [])) = x.
+Proof.
+  intro Hcu. unfold mk_request. cbn [is_empty negb u_query]. rewrite andb_false_r.
+  destruct (0 <? c_n c)%Z; [|apply cursor_read_link].
+  unfold qset. cbn [qdel]. rewrite (str_eqb_neq (ckey cu) k_n) by (now apply ckey_neq_n).
+  destruct cu as [|ck0 s0]; unfold cursor_read, qget_s; cbn [ckey cenc qget].
+  - rewrite (str_eqb_neq k_n k_last) by exact k_n_neq_last. now rewrite str_eqb_refl.
+  - rewrite (str_eqb_neq k_n ck0) by (intro E; symmetry in E; now apply (ckey_neq_n (CToken ck0 s0) Hcu) in E).
+    rewrite str_eqb_refl. apply strip_app.
+Qed.
+
+Lemma mk_request_other_pre c u last k :
+  k <> k_n -> k <> k_last -> qget k (u_query (mk_request c u last)) = qget k (u_query u).
+Proof.
+  intros Hn Hl. unfold mk_request. simpl.
+  assert (A : forall q, qget k (if (0 <? c_n c)%Z then qset k_n (VN (Z.to_N (c_n c))) q else q) = qget k q).
+  { intro q. destruct (0 <? c_n c)%Z; [|reflexivity]. now apply qget_qset_other. }
+  destruct (sends_last (c_kind c) && negb (is_empty last)).
+  - rewrite qget_qset_other by exact Hl. apply A.
+  - apply A.
+Qed.
+
+Lemma start_cursor cu c path q0 last0 :
+  cursor_ok cu -> (forall k s, cu = CToken k s -> qget k q0 = None) ->
+  cursor_read cu (u_query (mk_request c (mkUrl path q0) last0)) =
+  qget_s k_last (u_query (mk_request c (mkUrl path q0) last0)).
+Proof.
+  intros Hcu H. apply cursor_read_start. destruct cu as [|k s]; [now left|right].
+  cbn [ckey]. destruct Hcu as (Hn & Hl & _).
+  rewrite mk_request_other_pre by assumption. cbn [u_query]. now apply (H k s).
+Qed.
+
+Lemma referrers_query_other a k : k <> k_at -> qget k (if is_empty a then [] else [(k_at, VS a)]) = None.
+Proof.
+  intro H. destruct (is_empty a); [reflexivity|]. cbn [qget].
+  rewrite (str_eqb_neq k_at k); [reflexivity|]. intro E. apply H. now symmetry.
+Qed.
+
+Lemma mk_request_other c u last k :
+  k <> k_n -> k <> k_last -> qget k (u_query (mk_request c u last)) = qget k (u_query u).
+Proof.
+  intros Hn Hl. unfold mk_request. simpl.
+  assert (A : forall q, qget k (if (0 <? c_n c)%Z then qset k_n (VN (Z.to_N (c_n c))) q else q) = qget k q).
+  { intro q. destruct (0 <? c_n c)%Z; [|reflexivity]. now apply qget_qset_other. }
+  destruct (sends_last (c_kind c) && negb (is_empty last)).
+  - rewrite qget_qset_other by exact Hl. apply A.
+  - apply A.
+Qed.
 
 Lemma last_name_in (rest : list item) m :
   (1 <= m)%nat -> (m <= length rest)%nat -> In (last_name (firstn m rest)) (map fst rest).
@@ -226,26 +299,34 @@ Section Listing.
   Variable trailer : nat -> str.
   Variable resolve : url -> str -> option url.
   Variable c : cfg.
+  Variable cu : cursor.                  (* the registry's continuation: `last` or an opaque token *)
+  Variable npath : nat -> str -> str.    (* the path its next links point to *)
+
+  (* the URL the registry's next link of answer i stands for *)
+  Definition link_target (i : nat) (rq : url) (x : str) : url :=
+    link_url cu (npath i (u_path rq)) (ds i) rq x.
 
   Hypothesis Hnodup : NoDup (map fst L).
   Hypothesis Hnonempty : forall it, In it L -> fst it <> [].
   (* any Link form that net/url resolves to the intended target (cursor x, the
      registry's extra parameters, the other parameters of the request) *)
   Hypothesis Hrender_gt : forall i base x, In x (map fst L) ->
-    contains c_gt (render i base (link_target (ds i) base x)) = false.
+    contains c_gt (render i base (link_target i base x)) = false.
   Hypothesis Hresolve : forall i base x, In x (map fst L) ->
-    resolve base (render i base (link_target (ds i) base x)) = Some (link_target (ds i) base x).
+    resolve base (render i base (link_target i base x)) = Some (link_target i base x).
   (* the link does not change the artifactType the request asked for *)
   Hypothesis Hextra : c_kind c = KReferrers -> forall i, qget k_at (d_extra (ds i)) = None.
+  (* an opaque cursor key does not collide with n / last / artifactType *)
+  Hypothesis Hcu : cursor_ok cu.
 
   Definition view (page : list item) : list item :=
     match c_kind c with KReferrers => filter_referrers page (c_at c) | _ => page end.
 
-  Definition serve := reg_serve (c_kind c) L cap ds render trailer.
-  Definition rest_of (rq : url) := after (qget_s k_last (u_query rq)) L.
+  Definition serve := reg_serve (c_kind c) cu npath L cap ds render trailer.
+  Definition rest_of (rq : url) := after (cursor_read cu (u_query rq)) L.
   Definition m_of (i : nat) (rq : url) := page_len cap rq (ds i).
   Definition link_query (i : nat) (rq : url) : query :=
-    (k_last, VS (last_name (firstn (m_of i rq) (rest_of rq)))) :: d_extra (ds i) ++ qdel k_last (u_query rq).
+    u_query (link_url cu [] (ds i) rq (last_name (firstn (m_of i rq) (rest_of rq)))).
 
   Lemma view_app a b0 : view (a ++ b0) = view a ++ view b0.
   Proof. unfold view. destruct (c_kind c); try reflexivity. apply filter_referrers_app. Qed.
@@ -256,7 +337,7 @@ Section Listing.
   Lemma serve_link i rq :
     rs_link (serve i rq) =
     if (m_of i rq <? length (rest_of rq))%nat
-    then c_lt :: render i rq (mkUrl (u_path rq) (link_query i rq)) ++ c_gt :: trailer i
+    then c_lt :: render i rq (mkUrl (npath i (u_path rq)) (link_query i rq)) ++ c_gt :: trailer i
     else [].
   Proof.
     unfold rs_link, serve, reg_serve, reg_page. cbn [rs_links].
@@ -331,24 +412,25 @@ Section Listing.
       apply Nat.ltb_lt in Emore.
       assert (Hin : In (last_name (firstn m rest)) (map fst L)).
       { rewrite HL, map_app. apply in_or_app. right. apply last_name_in; lia. }
-      assert (Etgt : mkUrl (u_path rq) (link_query i rq) = link_target (ds i) rq (last_name (firstn m rest))).
-      { unfold link_query, link_target. fold m. now rewrite Hrest. }
+      assert (Etgt : mkUrl (npath i (u_path rq)) (link_query i rq) = link_target i rq (last_name (firstn m rest))).
+      { unfold link_query, link_target, link_url. cbn [u_query]. fold m. now rewrite Hrest. }
       rewrite Etgt.
       rewrite parse_link_wellformed by (now apply Hrender_gt).
       rewrite Hresolve by exact Hin.
-      set (tgt := link_target (ds i) rq (last_name (firstn m rest))).
-      assert (Hlast : qget k_last (u_query (mk_request c tgt [])) = Some (VS (last_name (firstn m rest)))).
-      { rewrite mk_request_last. cbn [is_empty negb]. rewrite andb_false_r.
-        unfold tgt, link_target. cbn [u_query qget]. now rewrite str_eqb_refl. }
+      set (tgt := link_target i rq (last_name (firstn m rest))).
+      assert (Hlast : cursor_read cu (u_query (mk_request c tgt [])) = last_name (firstn m rest)).
+      { unfold tgt, link_target, link_url. now apply cursor_read_request. }
       assert (Hrest' : rest_of (mk_request c tgt []) = skipn m rest).
-      { unfold rest_of, qget_s. rewrite Hlast. eapply after_page; eauto. }
+      { unfold rest_of. rewrite Hlast. eapply after_page; eauto. }
       assert (HL' : L = (pre ++ firstn m rest) ++ skipn m rest).
       { rewrite <- app_assoc. now rewrite firstn_skipn. }
       assert (Hat' : c_kind c = KReferrers -> qget_s k_at (u_query (mk_request c tgt [])) = c_at c).
       { intro K. rewrite <- (Hat K). unfold qget_s. rewrite mk_request_at.
-        unfold tgt, link_target. cbn [u_query qget].
-        rewrite (str_eqb_neq k_last k_at) by exact k_last_neq_at.
-        rewrite qget_app, (Hextra K). rewrite qget_qdel_other; [|intro E; symmetry in E; now apply k_last_neq_at in E].
+        unfold tgt, link_target, link_url. cbn [u_query qget].
+        rewrite (str_eqb_neq (ckey cu) k_at) by (now apply ckey_neq_at).
+        rewrite qget_app, (Hextra K).
+        rewrite qget_qdel_other by (intro E; symmetry in E; now apply (ckey_neq_at cu Hcu) in E).
+        rewrite qget_qdel_other; [|intro E; symmetry in E; now apply k_last_neq_at in E].
         reflexivity. }
       assert (Hlen : (length (skipn m rest) < fuel)%nat) by (rewrite skipn_length; lia).
       set (pg := if delivered c (view (firstn m rest)) then [view (firstn m rest)] else []).
@@ -398,24 +480,25 @@ Section Listing.
     - apply Nat.ltb_lt in Emore.
       assert (Hin : In (last_name (firstn m rest)) (map fst L)).
       { rewrite HL, map_app. apply in_or_app. right. apply last_name_in; lia. }
-      assert (Etgt : mkUrl (u_path rq) (link_query i rq) = link_target (ds i) rq (last_name (firstn m rest))).
-      { unfold link_query, link_target. fold m. now rewrite Hrest. }
+      assert (Etgt : mkUrl (npath i (u_path rq)) (link_query i rq) = link_target i rq (last_name (firstn m rest))).
+      { unfold link_query, link_target, link_url. cbn [u_query]. fold m. now rewrite Hrest. }
       rewrite Etgt.
       rewrite parse_link_wellformed by (now apply Hrender_gt).
       rewrite Hresolve by exact Hin.
-      set (tgt := link_target (ds i) rq (last_name (firstn m rest))).
-      assert (Hlast : qget k_last (u_query (mk_request c tgt [])) = Some (VS (last_name (firstn m rest)))).
-      { rewrite mk_request_last. cbn [is_empty negb]. rewrite andb_false_r.
-        unfold tgt, link_target. cbn [u_query qget]. now rewrite str_eqb_refl. }
+      set (tgt := link_target i rq (last_name (firstn m rest))).
+      assert (Hlast : cursor_read cu (u_query (mk_request c tgt [])) = last_name (firstn m rest)).
+      { unfold tgt, link_target, link_url. now apply cursor_read_request. }
       assert (Hrest' : rest_of (mk_request c tgt []) = skipn m rest).
-      { unfold rest_of, qget_s. rewrite Hlast. eapply after_page; eauto. }
+      { unfold rest_of. rewrite Hlast. eapply after_page; eauto. }
       assert (HL' : L = (pre ++ firstn m rest) ++ skipn m rest).
       { rewrite <- app_assoc. now rewrite firstn_skipn. }
       assert (Hat' : c_kind c = KReferrers -> qget_s k_at (u_query (mk_request c tgt [])) = c_at c).
       { intro K. rewrite <- (Hat K). unfold qget_s. rewrite mk_request_at.
-        unfold tgt, link_target. cbn [u_query qget].
-        rewrite (str_eqb_neq k_last k_at) by exact k_last_neq_at.
-        rewrite qget_app, (Hextra K). rewrite qget_qdel_other; [|intro E; symmetry in E; now apply k_last_neq_at in E].
+        unfold tgt, link_target, link_url. cbn [u_query qget].
+        rewrite (str_eqb_neq (ckey cu) k_at) by (now apply ckey_neq_at).
+        rewrite qget_app, (Hextra K).
+        rewrite qget_qdel_other by (intro E; symmetry in E; now apply (ckey_neq_at cu Hcu) in E).
+        rewrite qget_qdel_other; [|intro E; symmetry in E; now apply k_last_neq_at in E].
         reflexivity. }
       assert (Hlen : (length (skipn m rest) < fuel)%nat) by (rewrite skipn_length; lia).
       set (pg := if delivered c (view (firstn m rest)) then [view (firstn m rest)] else []).
@@ -447,30 +530,32 @@ Proof. induction pre as [|a pre IH]; simpl; intro H; [exact H|]. inversion H; au
 Theorem listing_exactly_once :
   forall (L : list item) (cap : nat) (ds : nat -> decision)
          (render : nat -> url -> url -> str) (trailer : nat -> str)
-         (resolve : url -> str -> option url) (c : cfg) (path last0 : str) (fuel : nat),
+         (resolve : url -> str -> option url) (c : cfg) (cu : cursor) (npath : nat -> str -> str)
+         (path last0 : str) (fuel : nat),
+    cursor_ok cu ->
     c_kind c <> KReferrers ->
     NoDup (map fst L) -> (forall it, In it L -> fst it <> []) ->
     (forall i base x, In x (map fst L) ->
-       contains c_gt (render i base (link_target (ds i) base x)) = false) ->
+       contains c_gt (render i base (link_target ds cu npath i base x)) = false) ->
     (forall i base x, In x (map fst L) ->
-       resolve base (render i base (link_target (ds i) base x)) = Some (link_target (ds i) base x)) ->
+       resolve base (render i base (link_target ds cu npath i base x)) = Some (link_target ds cu npath i base x)) ->
     (forall i, (Z.of_N (d_doc_len (ds i)) <= eff_limit (c_limit c))%Z) ->
     (length (after last0 L) < fuel)%nat ->
-    let t := loop (reg_serve (c_kind c) L cap ds render trailer) resolve (fun _ => false) c
+    let t := loop (reg_serve (c_kind c) cu npath L cap ds render trailer) resolve (fun _ => false) c
                   fuel 0 0 (mkUrl path []) last0 in
     t_out t = Done /\
     concat (t_pages t) = after last0 L /\
     NoDup (map fst (concat (t_pages t))) /\
     (length (t_reqs t) <= S (length (after last0 L)))%nat.
 Proof.
-  intros L cap ds render trailer resolve c path last0 fuel K Hnd Hne Hgt Hres Hfit Hfuel.
+  intros L cap ds render trailer resolve c cu npath path last0 fuel Hcu K Hnd Hne Hgt Hres Hfit Hfuel.
   destruct (after_suffix last0 L) as [pre Hpre].
-  assert (Hrest : rest_of L (mk_request c (mkUrl path []) last0) = after last0 L).
-  { unfold rest_of, qget_s. rewrite mk_request_last. cbn [u_query qget].
+  assert (Hrest : rest_of L cu (mk_request c (mkUrl path []) last0) = after last0 L).
+  { unfold rest_of. rewrite start_cursor by (auto; reflexivity). unfold qget_s. rewrite mk_request_last. cbn [u_query qget].
     assert (S : sends_last (c_kind c) = true) by (destruct (c_kind c); try reflexivity; contradiction).
     rewrite S. destruct last0; reflexivity. }
-  destruct (loop_listing L cap ds render trailer resolve c Hnd Hne Hgt Hres
-              ltac:(intro; contradiction) Hfit fuel 0%nat 0%nat (mkUrl path []) last0 (after last0 L) pre
+  destruct (loop_listing L cap ds render trailer resolve c cu npath Hnd Hne Hgt Hres
+              ltac:(intro; contradiction) Hcu Hfit fuel 0%nat 0%nat (mkUrl path []) last0 (after last0 L) pre
               Hrest Hpre ltac:(intro; contradiction) Hfuel) as (O & P & R).
   assert (V : view c (after last0 L) = after last0 L).
   { unfold view. destruct (c_kind c); try reflexivity; contradiction. }
@@ -485,32 +570,35 @@ Definition referrers_query (a : str) : query := if is_empty a then [] else [(k_a
 Theorem referrers_exactly_once :
   forall (L : list item) (cap : nat) (ds : nat -> decision)
          (render : nat -> url -> url -> str) (trailer : nat -> str)
-         (resolve : url -> str -> option url) (c : cfg) (path : str) (fuel : nat),
+         (resolve : url -> str -> option url) (c : cfg) (cu : cursor) (npath : nat -> str -> str)
+         (path : str) (fuel : nat),
+    cursor_ok cu ->
     c_kind c = KReferrers ->
     NoDup (map fst L) -> (forall it, In it L -> fst it <> []) ->
     (forall i base x, In x (map fst L) ->
-       contains c_gt (render i base (link_target (ds i) base x)) = false) ->
+       contains c_gt (render i base (link_target ds cu npath i base x)) = false) ->
     (forall i base x, In x (map fst L) ->
-       resolve base (render i base (link_target (ds i) base x)) = Some (link_target (ds i) base x)) ->
+       resolve base (render i base (link_target ds cu npath i base x)) = Some (link_target ds cu npath i base x)) ->
     (forall i, (Z.of_N (d_doc_len (ds i)) <= eff_limit (c_limit c))%Z) ->
     (forall i, qget k_at (d_extra (ds i)) = None) ->
     (length L < fuel)%nat ->
-    let t := loop (reg_serve KReferrers L cap ds render trailer) resolve (fun _ => false) c
+    let t := loop (reg_serve KReferrers cu npath L cap ds render trailer) resolve (fun _ => false) c
                   fuel 0 0 (mkUrl path (referrers_query (c_at c))) [] in
     t_out t = Done /\
     concat (t_pages t) = filter_referrers L (c_at c) /\
     (length (t_reqs t) <= S (length L))%nat.
 Proof.
-  intros L cap ds render trailer resolve c path fuel K Hnd Hne Hgt Hres Hfit Hex Hfuel.
-  assert (Hrest : rest_of L (mk_request c (mkUrl path (referrers_query (c_at c))) []) = L).
-  { unfold rest_of, qget_s. rewrite mk_request_last. rewrite K. cbn [sends_last andb u_query].
+  intros L cap ds render trailer resolve c cu npath path fuel Hcu K Hnd Hne Hgt Hres Hfit Hex Hfuel.
+  assert (Hrest : rest_of L cu (mk_request c (mkUrl path (referrers_query (c_at c))) []) = L).
+  { unfold rest_of. rewrite start_cursor by (auto; intros k s E; apply referrers_query_other; rewrite E in Hcu; apply Hcu).
+    unfold qget_s. rewrite mk_request_last. rewrite K. cbn [sends_last andb u_query].
     unfold referrers_query. destruct (is_empty (c_at c)); reflexivity. }
   assert (Hat : c_kind c = KReferrers ->
                 qget_s k_at (u_query (mk_request c (mkUrl path (referrers_query (c_at c))) [])) = c_at c).
   { intros _. unfold qget_s. rewrite mk_request_at. cbn [u_query]. unfold referrers_query.
     destruct (c_at c) as [|x a]; [reflexivity|]. cbn [is_empty qget]. now rewrite str_eqb_refl. }
-  pose proof (loop_listing L cap ds render trailer resolve c Hnd Hne Hgt Hres
-              (fun _ => Hex) Hfit fuel 0%nat 0%nat (mkUrl path (referrers_query (c_at c))) [] L []
+  pose proof (loop_listing L cap ds render trailer resolve c cu npath Hnd Hne Hgt Hres
+              (fun _ => Hex) Hcu Hfit fuel 0%nat 0%nat (mkUrl path (referrers_query (c_at c))) [] L []
               Hrest eq_refl Hat Hfuel) as H.
   unfold serve in H. rewrite K in H. unfold view in H. rewrite K in H. exact H.
 Qed.
@@ -929,15 +1017,17 @@ Definition start_rest (c : cfg) (last0 : str) (L : list item) : list item :=
 Theorem listing_limit :
   forall (L : list item) (cap : nat) (ds : nat -> decision)
          (render : nat -> url -> url -> str) (trailer : nat -> str)
-         (resolve : url -> str -> option url) (c : cfg) (path last0 : str) (fuel : nat),
+         (resolve : url -> str -> option url) (c : cfg) (cu : cursor) (npath : nat -> str -> str)
+         (path last0 : str) (fuel : nat),
+    cursor_ok cu ->
     NoDup (map fst L) -> (forall it, In it L -> fst it <> []) ->
     (forall i base x, In x (map fst L) ->
-       contains c_gt (render i base (link_target (ds i) base x)) = false) ->
+       contains c_gt (render i base (link_target ds cu npath i base x)) = false) ->
     (forall i base x, In x (map fst L) ->
-       resolve base (render i base (link_target (ds i) base x)) = Some (link_target (ds i) base x)) ->
+       resolve base (render i base (link_target ds cu npath i base x)) = Some (link_target ds cu npath i base x)) ->
     (c_kind c = KReferrers -> forall i, qget k_at (d_extra (ds i)) = None) ->
     (length (start_rest c last0 L) < fuel)%nat ->
-    let t := loop (reg_serve (c_kind c) L cap ds render trailer) resolve (fun _ => false) c
+    let t := loop (reg_serve (c_kind c) cu npath L cap ds render trailer) resolve (fun _ => false) c
                   fuel 0 0 (mkUrl path (start_query c)) last0 in
     let fit := fun i => (Z.of_N (d_doc_len (ds i)) <= eff_limit (c_limit c))%Z in
     (t_out t = Done /\ concat (t_pages t) = view c (start_rest c last0 L) /\
@@ -946,12 +1036,15 @@ Theorem listing_limit :
      exists n j, concat (t_pages t) = view c (firstn n (start_rest c last0 L)) /\
                  length (t_reqs t) = S j /\ ~ fit j /\ forall j', (j' < j)%nat -> fit j').
 Proof.
-  intros L cap ds render trailer resolve c path last0 fuel Hnd Hne Hgt Hres Hex Hfuel.
+  intros L cap ds render trailer resolve c cu npath path last0 fuel Hcu Hnd Hne Hgt Hres Hex Hfuel.
   assert (Hsuf : exists pre, L = pre ++ start_rest c last0 L).
   { unfold start_rest. destruct (c_kind c); try apply after_suffix. now exists []. }
   destruct Hsuf as [pre Hpre].
-  assert (Hrest : rest_of L (mk_request c (mkUrl path (start_query c)) last0) = start_rest c last0 L).
-  { unfold rest_of, qget_s, start_rest, start_query. rewrite mk_request_last. cbn [u_query].
+  assert (Hrest : rest_of L cu (mk_request c (mkUrl path (start_query c)) last0) = start_rest c last0 L).
+  { unfold rest_of. rewrite start_cursor
+      by (auto; intros k s E; unfold start_query; destruct (c_kind c); try reflexivity;
+          apply referrers_query_other; rewrite E in Hcu; apply Hcu).
+    unfold qget_s, start_rest, start_query. rewrite mk_request_last. cbn [u_query].
     destruct (c_kind c); cbn [sends_last andb qget].
     - destruct last0; reflexivity.
     - destruct last0; reflexivity.
@@ -960,7 +1053,7 @@ Proof.
                 qget_s k_at (u_query (mk_request c (mkUrl path (start_query c)) last0)) = c_at c).
   { intros K. unfold qget_s, start_query. rewrite mk_request_at. rewrite K. cbn [u_query]. unfold referrers_query.
     destruct (c_at c) as [|x a]; [reflexivity|]. cbn [is_empty qget]. now rewrite str_eqb_refl. }
-  exact (loop_listing_limit L cap ds render trailer resolve c Hnd Hne Hgt Hres Hex
+  exact (loop_listing_limit L cap ds render trailer resolve c cu npath Hnd Hne Hgt Hres Hex Hcu
            fuel 0%nat 0%nat (mkUrl path (start_query c)) last0 (start_rest c last0 L) pre Hrest Hpre Hat Hfuel).
 Qed.
 
@@ -1077,25 +1170,26 @@ Proof. rewrite <- concat_app. now rewrite firstn_skipn. Qed.
 Theorem listing_prefix_any_callback :
   forall (L : list item) (cap : nat) (ds : nat -> decision)
          (render : nat -> url -> url -> str) (trailer : nat -> str)
-         (resolve : url -> str -> option url) (c : cfg) (cb_fail : nat -> bool)
-         (path last0 : str) (fuel : nat),
+         (resolve : url -> str -> option url) (c : cfg) (cu : cursor) (npath : nat -> str -> str)
+         (cb_fail : nat -> bool) (path last0 : str) (fuel : nat),
+    cursor_ok cu ->
     c_kind c <> KReferrers ->
     NoDup (map fst L) -> (forall it, In it L -> fst it <> []) ->
     (forall i base x, In x (map fst L) ->
-       contains c_gt (render i base (link_target (ds i) base x)) = false) ->
+       contains c_gt (render i base (link_target ds cu npath i base x)) = false) ->
     (forall i base x, In x (map fst L) ->
-       resolve base (render i base (link_target (ds i) base x)) = Some (link_target (ds i) base x)) ->
+       resolve base (render i base (link_target ds cu npath i base x)) = Some (link_target ds cu npath i base x)) ->
     (forall i, (Z.of_N (d_doc_len (ds i)) <= eff_limit (c_limit c))%Z) ->
     (length (after last0 L) < fuel)%nat ->
-    let t := loop (reg_serve (c_kind c) L cap ds render trailer) resolve cb_fail c
+    let t := loop (reg_serve (c_kind c) cu npath L cap ds render trailer) resolve cb_fail c
                   fuel 0 0 (mkUrl path []) last0 in
     (t_out t = Done /\ concat (t_pages t) = after last0 L) \/
     (t_out t = ErrCallback /\ exists rest', after last0 L = concat (t_pages t) ++ rest').
 Proof.
-  intros L cap ds render trailer resolve c cb_fail path last0 fuel K Hnd Hne Hgt Hres Hfit Hfuel.
-  destruct (listing_exactly_once L cap ds render trailer resolve c path last0 fuel K Hnd Hne Hgt Hres Hfit Hfuel)
+  intros L cap ds render trailer resolve c cu npath cb_fail path last0 fuel Hcu K Hnd Hne Hgt Hres Hfit Hfuel.
+  destruct (listing_exactly_once L cap ds render trailer resolve c cu npath path last0 fuel Hcu K Hnd Hne Hgt Hres Hfit Hfuel)
     as (O & P & _ & _).
-  destruct (loop_fail_prefix (reg_serve (c_kind c) L cap ds render trailer) resolve c cb_fail
+  destruct (loop_fail_prefix (reg_serve (c_kind c) cu npath L cap ds render trailer) resolve c cb_fail
               fuel 0%nat 0%nat (mkUrl path []) last0) as [[E _]|(n & m & O1 & _ & P1 & _)].
   - left. cbv zeta. rewrite E. auto.
   - right. cbv zeta. split; [exact O1|]. rewrite P1. rewrite <- P.
@@ -1176,7 +1270,7 @@ Qed.
 Definition wit_L : list item := [(b "a", b "t"); (b "b", b "t"); (b "c", b "t")].
 Definition wit_ds (i : nat) : decision := mkDec 1 [] false [] [] 10 0.
 Definition wit_render (i : nat) (base tgt : url) : str := qget_s k_last (u_query tgt).
-Definition wit_resolve (base : url) (t : str) : option url := Some (link_target (wit_ds 0) base t).
+Definition wit_resolve (base : url) (t : str) : option url := Some (link_url CLast (u_path base) (wit_ds 0) base t).
 Definition wit_cfg : cfg := mkCfg KReferrers 0 0 [].
 Definition wit_u : url := mkUrl (b "/v2/r/referrers/d") [].
 Definition wit_ts (cb_fail : nat -> bool) (k : nat) :=
@@ -1187,7 +1281,7 @@ Definition wit_ts (cb_fail : nat -> bool) (k : nat) :=
    (same referrer "a" delivered twice) and returned success *)
 Lemma wrap_prefix_refuted :
   exists (cb_fail : nat -> bool),
-    let api := loop (reg_serve KReferrers wit_L 5 wit_ds wit_render (fun _ => [])) wit_resolve
+    let api := loop (reg_serve KReferrers CLast (fun _ p => p) wit_L 5 wit_ds wit_render (fun _ => [])) wit_resolve
                     cb_fail wit_cfg 9 0 0 wit_u [] in
     let w := referrers_wrap_prefix RUnknown true api (wit_ts cb_fail) in
     t_out api = ErrCallback /\ w_out w = Done /\ w_state w = RUnsupported /\
@@ -1200,7 +1294,7 @@ Qed.
 (* the same scenario with the fixed wrapper *)
 Lemma wrap_fixed_witness :
   let cb_fail := fun k => (k =? 0)%nat in
-  let api := loop (reg_serve KReferrers wit_L 5 wit_ds wit_render (fun _ => [])) wit_resolve
+  let api := loop (reg_serve KReferrers CLast (fun _ p => p) wit_L 5 wit_ds wit_render (fun _ => [])) wit_resolve
                   cb_fail wit_cfg 9 0 0 wit_u [] in
   let w := referrers_wrap RUnknown true api (wit_ts cb_fail) in
   w_out w = ErrCallback /\ w_state w = RUnknown /\ map (map fst) (w_pages w) = [[b "a"]].
@@ -1209,7 +1303,7 @@ Proof. vm_compute. repeat split. Qed.
 (* a registry that is legal per RFC 8288 but puts a rel="first" link-value before the next
    link: the client follows the first link-value, re-reads the first page and never ends *)
 Definition relfirst_serve (i : nat) (rq : url) : response :=
-  let rs := reg_serve KTags wit_L 5 wit_ds wit_render (fun _ => b "; rel=""next""") i rq in
+  let rs := reg_serve KTags CLast (fun _ p => p) wit_L 5 wit_ds wit_render (fun _ => b "; rel=""next""") i rq in
   match rs_links rs with
   | [] => rs
   | l :: more =>
@@ -1280,24 +1374,26 @@ Qed.
 Theorem referrers_unknown_with_api :
   forall (L : list item) (cap : nat) (ds : nat -> decision)
          (render : nat -> url -> url -> str) (trailer : nat -> str)
-         (resolve : url -> str -> option url) (c : cfg) (path : str) (fuel : nat) cbu ts,
+         (resolve : url -> str -> option url) (c : cfg) (cu : cursor) (npath : nat -> str -> str)
+         (path : str) (fuel : nat) cbu ts,
+    cursor_ok cu ->
     c_kind c = KReferrers ->
     NoDup (map fst L) -> (forall it, In it L -> fst it <> []) ->
     (forall i base x, In x (map fst L) ->
-       contains c_gt (render i base (link_target (ds i) base x)) = false) ->
+       contains c_gt (render i base (link_target ds cu npath i base x)) = false) ->
     (forall i base x, In x (map fst L) ->
-       resolve base (render i base (link_target (ds i) base x)) = Some (link_target (ds i) base x)) ->
+       resolve base (render i base (link_target ds cu npath i base x)) = Some (link_target ds cu npath i base x)) ->
     (forall i, (Z.of_N (d_doc_len (ds i)) <= eff_limit (c_limit c))%Z) ->
     (forall i, qget k_at (d_extra (ds i)) = None) ->
     (length L < fuel)%nat ->
-    let api := loop (reg_serve KReferrers L cap ds render trailer) resolve (fun _ => false) c
+    let api := loop (reg_serve KReferrers cu npath L cap ds render trailer) resolve (fun _ => false) c
                     fuel 0 0 (mkUrl path (referrers_query (c_at c))) [] in
     let w := referrers_wrap RUnknown cbu api ts in
     w_out w = Done /\ concat (w_pages w) = filter_referrers L (c_at c) /\
     w_state w = RSupported /\ w_fell_back w = false.
 Proof.
-  intros L cap ds render trailer resolve c path fuel cbu ts K Hnd Hne Hgt Hres Hfit Hex Hfuel.
-  destruct (referrers_exactly_once L cap ds render trailer resolve c path fuel K Hnd Hne Hgt Hres Hfit Hex Hfuel)
+  intros L cap ds render trailer resolve c cu npath path fuel cbu ts Hcu K Hnd Hne Hgt Hres Hfit Hex Hfuel.
+  destruct (referrers_exactly_once L cap ds render trailer resolve c cu npath path fuel Hcu K Hnd Hne Hgt Hres Hfit Hex Hfuel)
     as (O & P & _).
   cbv zeta. unfold referrers_wrap. rewrite O. cbn [w_out w_pages w_state w_fell_back]. auto.
 Qed.
@@ -1323,4 +1419,71 @@ Proof.
   { rewrite (handle_404 c _ K S). now rewrite N. }
   rewrite E. unfold referrers_wrap. cbn [t_out unsupported_class no_pages t_pages andb t_reqs w_reqs w_fell_back w_state w_pages w_out length].
   auto.
+Qed.
+
+(* ---------- concrete instances showing that the hypotheses of the theorems are satisfiable ---------- *)
+
+Definition ex_L : list item := [(b "a", b "t1"); (b "b", b "t2"); (b "c", b "t1"); (b "d", b "t1")].
+Definition ex_ds (i : nat) : decision :=
+  mkDec (1 + Nat.modulo i 2) [(b "x", VS (b "1"))] (Nat.even i) [] (if Nat.even i then [] else b "foo,artifactType") 10 1.
+(* link text = the cursor; the toy resolver rebuilds the target from it *)
+Definition ex_render (i : nat) (base tgt : url) : str := qget_s k_last (u_query tgt).
+Definition ex_resolve (base : url) (t : str) : option url := Some (link_url CLast (u_path base) (ex_ds 0) base t).
+Definition ex_cfg (k : kind) : cfg := mkCfg k 3 100 (b "t1").
+
+
+Lemma example_hypotheses :
+  NoDup (map fst ex_L) /\ (forall it, In it ex_L -> fst it <> []) /\
+  (forall i base x, In x (map fst ex_L) ->
+     contains c_gt (ex_render i base (link_target ex_ds CLast (fun _ p => p) i base x)) = false) /\
+  (forall i base x, In x (map fst ex_L) ->
+     ex_resolve base (ex_render i base (link_target ex_ds CLast (fun _ p => p) i base x)) = Some (link_target ex_ds CLast (fun _ p => p) i base x)) /\
+  (forall i, (Z.of_N (d_doc_len (ex_ds i)) <= eff_limit (c_limit (ex_cfg KTags)))%Z) /\
+  (forall i, qget k_at (d_extra (ex_ds i)) = None).
+Proof.
+  split. { repeat constructor; simpl; intuition discriminate. }
+  split. { simpl. intros it H. repeat (destruct H as [<-|H]; [discriminate|]). contradiction. }
+  split. { intros i base x H. unfold ex_render, link_target, link_url, qget_s. cbn [u_query qget ckey cenc]. rewrite str_eqb_refl.
+           simpl in H. repeat (destruct H as [<-|H]; [reflexivity|]). contradiction. }
+  split. { intros i base x _. unfold ex_resolve, ex_render, link_target, link_url, qget_s. cbn [u_query qget ckey cenc].
+           rewrite str_eqb_refl. reflexivity. }
+  split. { intro i. vm_compute. discriminate. }
+  intro i. reflexivity.
+Qed.
+
+(* an opaque cursor: key "token", value "p;" ++ name, next pages under <path>/~p *)
+Definition ex_cu : cursor := CToken (b "token") (b "p;").
+Definition ex_npath (i : nat) (p : str) : str := b "/v2/r/tags/list/~p".
+Definition ex_render_tok (i : nat) (base tgt : url) : str := qget_s (b "token") (u_query tgt).
+Definition ex_resolve_tok (base : url) (t : str) : option url :=
+  Some (link_url ex_cu (ex_npath 0 []) (ex_ds 0) base (strip (b "p;") t)).
+
+Lemma example_token_hypotheses :
+  cursor_ok ex_cu /\
+  (forall i base x, In x (map fst ex_L) ->
+     contains c_gt (ex_render_tok i base (link_target ex_ds ex_cu ex_npath i base x)) = false) /\
+  (forall i base x, In x (map fst ex_L) ->
+     ex_resolve_tok base (ex_render_tok i base (link_target ex_ds ex_cu ex_npath i base x)) = Some (link_target ex_ds ex_cu ex_npath i base x)).
+Proof.
+  split. { simpl. repeat split; discriminate. }
+  split. { intros i base x H. unfold ex_render_tok, link_target, link_url, qget_s. cbn [u_query qget ckey cenc ex_cu].
+           rewrite str_eqb_refl. simpl in H. repeat (destruct H as [<-|H]; [reflexivity|]). contradiction. }
+  intros i base x _. unfold ex_resolve_tok, ex_render_tok, link_target, link_url, qget_s. cbn [u_query qget ckey cenc ex_cu].
+  rewrite str_eqb_refl. rewrite strip_app. reflexivity.
+Qed.
+
+(* a toy stream decoder: the value is everything up to the first '}' *)
+Fixpoint ex_decode (s : str) : option str :=
+  match s with
+  | [] => None
+  | ch :: s' => if ch =? 125 then Some [ch]
+               else match ex_decode s' with Some v => Some (ch :: v) | None => None end
+  end.
+
+
+Lemma example_document : is_document str ex_decode (b "{ab}") (b "{ab}").
+Proof.
+  split.
+  - intro tail. reflexivity.
+  - intros k H. simpl in H. do 4 (destruct k as [|k]; [reflexivity|]). lia.
 Qed.
